@@ -7,6 +7,9 @@ The prompt contains only the property text; nothing of /verif's machinery. Usage
 import json, os, subprocess, sys
 
 root = sys.argv[1]
+BOLD = "--bold" in sys.argv
+if BOLD:
+    sys.argv.remove("--bold")
 PROPS = sys.argv[2:] or ['C04', 'C05', 'C06', 'C07', 'C08', 'C09', 'C10', 'C11', 'C12', 'C14', 'C18', 'C20']
 props = {}
 for l in open('/verif/properties.jsonl'):
@@ -47,5 +50,11 @@ for pid in PROPS:
     p = props[pid]
     open(f"{root}/{pid}.property.txt", 'w').write(
         f"{p['id']} — {p['title']}\n\nStatement: {p['statement']}\n\nQuantifier: {p['quantifier']['text']}\n\nCode anchors (files): {', '.join(p['anchors']['files'])}\nMechanisms meant to make it hold: {'; '.join(m['name'] + ' @ ' + m['where'] for m in p['anchors']['mechanism'])}\n")
-    open(f"{root}/{pid}.prompt.txt", 'w').write(base.replace('@ROOT@', root).replace('@ID@', pid))
+    text = base.replace('@ROOT@', root).replace('@ID@', pid)
+    if BOLD:
+        text = text.replace("## Deliverable", """## This round
+Earlier rounds produced cautious refactorings; the tool stayed silent on all of them. In this round prefer kinds B and D and be bold: the more an external observer (radio stub, timer stub, RNG, the peer on the air, the application) sees differently, the better - extra, fewer or re-ordered radio calls; different but still conforming timer requests; a different order of internal bookkeeping; different answers or refusals where the statement leaves a choice; different error variants and different behaviour after errors; different use of the RNG; stricter input validation; recovery actions after failures - as long as every clause of the statement still holds for every input, history and configuration it quantifies over. Changes that span two or three functions or files are welcome.
+
+## Deliverable""")
+    open(f"{root}/{pid}.prompt.txt", 'w').write(text)
 print("prepared", root)
